@@ -21,6 +21,7 @@ CONSTANTS
   Floor,       \* file growth floor (cells): set_min_len grows to max(len, 2*cur, Floor)
   InitLen,     \* open_with_min_len argument (cells, not necessarily page aligned)
   MaxFile,     \* bound on the layout length (cells) explored
+  PreWrite,    \* TRUE: the pre-created regions also get one cell of data each and a final flush
   PreN,        \* number of regions (names "a","b",... in this order) created, one page each, before the explored history starts
   WKinds,      \* write kinds enabled: subset of {"append","at0","atend","tw0","tw1","oob"}
   Depth, Dev, Ops, HistK
@@ -357,9 +358,10 @@ Step(op, args, s, gg) ==
   /\ n' = n + 1
   /\ hist' = Append(hist, [op |-> op, args |-> args, res |-> s.res, must |-> gg.must, path |-> s.path,
                            exp |-> GObs(gg), impl |-> Obs(s), alloc |-> Alloc(s), pend |-> s.pend, resv |-> s.resv,
-                           dev |-> gg.dev, io |-> s.io])
+                           dev |-> gg.dev, io |-> s.io, persist |-> gg.persist])
 
-Alive == n < Depth /\ Len(hist) >= PreN
+PreSteps == IF PreWrite THEN 2 * PreN + 1 ELSE PreN
+Alive == n < Depth /\ Len(hist) >= PreSteps
 Start(s) == [s EXCEPT !.io = <<>>, !.path = "-"]
 rr == Start(r)
 
@@ -431,7 +433,9 @@ ARelease ==
 
 AFlush ==
   /\ "flush" \in Ops /\ Alive
-  /\ LET s == Flush(rr, Dev) IN Step("flush", <<>>, s, [g EXCEPT !.must = "ok"])
+  /\ LET s == Flush(rr, Dev)
+         dd == {e \in Dev : Flush(rr, Dev \ {e}) # s}
+     IN Step("flush", <<>>, s, Tag([g EXCEPT !.must = "ok"], dd))
 
 ARegionFlush ==
   /\ "rflush" \in Ops /\ Alive
@@ -440,28 +444,45 @@ ARegionFlush ==
 
 ACompact ==
   /\ "compact" \in Ops /\ Alive
-  /\ Step("compact", <<>>, Compact(rr, Dev), [g EXCEPT !.must = "ok"])
+  /\ LET s == Compact(rr, Dev)
+         dd == {e \in Dev : Compact(rr, Dev \ {e}) # s}
+     IN Step("compact", <<>>, s, Tag([g EXCEPT !.must = "ok"], dd))
 
 AReopen ==
   /\ "reopen" \in Ops /\ Alive
   /\ \A i \in Live(r) : r.slots[i].refs = 0
   /\ LET s == FlushReopen(rr, Dev)
+         dd == {e \in Dev : FlushReopen(rr, Dev \ {e}) # s}
          keep == DOMAIN g.ref \cap g.persist
-     IN Step("reopen", <<>>, s, [g EXCEPT !.ref = [x \in keep |-> g.ref[x]], !.must = "ok"])
+     IN Step("reopen", <<>>, s, Tag([g EXCEPT !.ref = [x \in keep |-> g.ref[x]], !.must = "ok"], dd))
 
 Pre == SubSeq(<<"a", "b", "c", "d", "e", "f">>, 1, PreN)
-\* the regions named in Pre are created first, as ordinary (replayed) create steps that do not count towards Depth
+\* the regions named in Pre are created first (and, with PreWrite, given one cell of data each and flushed), as
+\* ordinary replayed steps that do not count towards Depth
+PreRec(op, args, s1, g1) ==
+  [op |-> op, args |-> args, res |-> s1.res, must |-> "ok", path |-> s1.path,
+   exp |-> GObs(g1), impl |-> Obs(s1), alloc |-> Alloc(s1), pend |-> s1.pend, resv |-> s1.resv,
+   dev |-> {}, io |-> s1.io, persist |-> g1.persist]
 APre ==
-  /\ Len(hist) < PreN
-  /\ LET nm == Pre[Len(hist) + 1]
-         s1 == Create(rr, nm)
-         g1 == [g EXCEPT !.ref = FnSet(g.ref, nm, <<>>), !.must = "ok"]
-     IN /\ r' = [s1 EXCEPT !.io = <<>>, !.path = "-"]
-        /\ g' = g1
-        /\ n' = n
-        /\ hist' = Append(hist, [op |-> "create", args |-> <<nm>>, res |-> s1.res, must |-> "ok", path |-> s1.path,
-                                  exp |-> GObs(g1), impl |-> Obs(s1), alloc |-> Alloc(s1), pend |-> s1.pend, resv |-> s1.resv,
-                                  dev |-> {}, io |-> s1.io])
+  /\ Len(hist) < PreSteps
+  /\ LET k == Len(hist) + 1 IN
+     IF k <= PreN
+     THEN LET nm == Pre[k]
+              s1 == Create(rr, nm)
+              g1 == [g EXCEPT !.ref = FnSet(g.ref, nm, <<>>), !.must = "ok"]
+          IN /\ r' = [s1 EXCEPT !.io = <<>>, !.path = "-"] /\ g' = g1 /\ n' = n
+             /\ hist' = Append(hist, PreRec("create", <<nm>>, s1, g1))
+     ELSE IF k <= 2 * PreN
+     THEN LET nm == Pre[k - PreN]
+              xs == Fresh(1)
+              s1 == WriteWith(rr, nm, -1, xs, FALSE, Dev)
+              g1 == [g EXCEPT !.ref[nm] = xs, !.nxt = g.nxt + 1, !.must = "ok", !.persist = g.persist \cup {nm}]
+          IN /\ r' = [s1 EXCEPT !.io = <<>>, !.path = "-"] /\ g' = g1 /\ n' = n
+             /\ hist' = Append(hist, PreRec("write", <<nm, -1, 1, 0, g.nxt>>, s1, g1))
+     ELSE LET s1 == Flush(rr, Dev)
+              g1 == [g EXCEPT !.must = "ok"]
+          IN /\ r' = [s1 EXCEPT !.io = <<>>, !.path = "-"] /\ g' = g1 /\ n' = n
+             /\ hist' = Append(hist, PreRec("flush", <<>>, s1, g1))
 
 Init == r = R0 /\ g = G0 /\ n = 0 /\ hist = <<>>
 
